@@ -3,7 +3,7 @@
    primitive with the operator's argument rules: exactly which argument lists succeed, what the
    value and cost then are (in terms of the primitive), and which error kinds can occur. *)
 From Coq Require Import Lia ZifyBool ZifyN ZifyNat.
-From Clvm Require Import Model.OpsCrypto Proofs.BytesLemmas.
+From Clvm Require Import Model.OpsCrypto Proofs.BytesLemmas Proofs.IntEncBasics.
 Open Scope N_scope.
 Arguments N.add : simpl never.
 Arguments N.sub : simpl never.
@@ -64,8 +64,8 @@ Proof.
   - cbn. split; [intros _; split; [reflexivity|lia]|reflexivity].
   - cbn [wf_bytes forallb] in Hwf. unfold wf_byte in Hwf.
     assert (Ha : a0 < 256) by lia.
-    unfold coinid_amount_ok, canonical_int, int_of_bytes.
-    rewrite be_value_cons. cbn [length bytes_eqb be_value be_acc]. unfold pow256. cbn [length].
+    rewrite int_of_bytes_eq. unfold coinid_amount_ok, canonical_int.
+    rewrite be_value_cons. cbn [length bytes_eqb be_value be_acc].
     rewrite !blen_cons. change (blen []) with 0.
     destruct (N.leb_spec 128 a0) as [H1|H1].
     + split; [discriminate|]. intros [_ H]. lia.
@@ -77,8 +77,8 @@ Proof.
   - cbn [wf_bytes forallb] in Hwf. unfold wf_byte in Hwf.
     apply andb_prop in Hwf. destruct Hwf as [Ha0 Hwf]. apply andb_prop in Hwf. destruct Hwf as [Ha1 Hr].
     pose proof (be_value_bound r Hr) as Hb.
-    unfold coinid_amount_ok, canonical_int, int_of_bytes.
-    rewrite !be_value_cons. unfold pow256. cbn [length bytes_eqb]. rewrite andb_false_r. cbn [orb].
+    rewrite int_of_bytes_eq. unfold coinid_amount_ok, canonical_int.
+    rewrite !be_value_cons. cbn [length bytes_eqb]. rewrite andb_false_r. cbn [orb].
     rewrite !blen_cons. unfold blen.
     rewrite !Nat2N.inj_succ, !N.pow_succ_r'.
     set (n := N.of_nat (length r)) in *. set (p := 256 ^ n) in *. set (v := be_value r) in *.
